@@ -131,7 +131,8 @@ def ops_grid(cfgname):
             "toolong": "k" * 251,
             # boundary keys: the empty key (legal exactly when a prefix makes the wire key non-empty), exactly at / one
             # below the length limit (a prefix pushes them over), non-ASCII text (legal only with unicode keys)
-            "empty-str": "", "empty-bytes": b"", "at-limit": "k" * 250, "below-limit": b"k" * 248, "nonascii": "clé"}
+            "empty-str": "", "empty-bytes": b"", "at-limit": "k" * 250, "below-limit": b"k" * 248, "nonascii": "clé",
+            "nonutf8-bytes": b"caf\xe9\xff"}
     if uni:
         keys["unicode"] = "clé-☃"
     vals = [("bytes", b"value"), ("str", "text"), ("int", 42), ("nonascii-str", "naïve-☃"), ("crlf", b"a\r\nb")]
